@@ -286,6 +286,8 @@ type Actor struct {
 	crashOp   string
 	crashFn   func(c Call) bool
 	crashFnN  int
+	crashTorn bool // with crash-after: the object is created but its content never arrives (empty object)
+	readFault func(c Call, size int) (int, error)
 	onCall    func(c Call)
 	budget    int
 	over      bool
@@ -323,6 +325,35 @@ func (a *Actor) CrashWhen(f func(c Call) bool, n int, after bool) *Actor {
 	a.mu.Unlock()
 	return a
 }
+
+// Torn makes the write at which the actor crashes (mode "after") land as an EMPTY object: what a store without atomic
+// writes leaves when the client dies between creating the object and sending its content.
+func (a *Actor) Torn() *Actor { a.mu.Lock(); a.crashTorn = true; a.mu.Unlock(); return a }
+
+// SetReadFault installs a body fault for Get: when f returns a non-nil error for a call, the reader handed out delivers
+// only the first n bytes of the object and then fails with that error (a transfer cut mid-body).
+func (a *Actor) SetReadFault(f func(c Call, size int) (int, error)) *Actor {
+	a.mu.Lock()
+	a.readFault = f
+	a.mu.Unlock()
+	return a
+}
+
+type cutReader struct {
+	data []byte
+	err  error
+}
+
+func (c *cutReader) Read(p []byte) (int, error) {
+	if len(c.data) == 0 {
+		return 0, c.err
+	}
+	n := copy(p, c.data)
+	c.data = c.data[n:]
+	return n, nil
+}
+
+func (c *cutReader) Close() error { return nil }
 
 // OnCall installs a function run at the beginning of every store call of the actor, outside any lock;
 // it may block (driver-controlled pre-emption point).
@@ -646,6 +677,23 @@ func (v *View) Get(_ context.Context, key string) (io.ReadCloser, error) {
 		v.record(Event{Op: "get", Key: key, Err: errStr(err)})
 		return nil, err
 	}
+	if v.a != nil {
+		v.a.mu.Lock()
+		rf := v.a.readFault
+		v.a.mu.Unlock()
+		if rf != nil {
+			if n, ferr := rf(Call{Store: v.s.name, Op: "get", Key: key}, len(o.data)); ferr != nil {
+				if n > len(o.data) {
+					n = len(o.data)
+				}
+				v.record(Event{Op: "get", Key: key, Size: n, Err: "body cut: " + ferr.Error()})
+				v.a.mu.Lock()
+				v.a.faults++
+				v.a.mu.Unlock()
+				return &cutReader{data: o.data[:n], err: ferr}, nil
+			}
+		}
+	}
 	v.record(Event{Op: "get", Key: key, Size: len(o.data)})
 	if n := w.Cfg.ChunkedReader; n > 0 {
 		return &chunkedReader{data: o.data, n: n}, nil
@@ -755,6 +803,13 @@ func (v *View) put(_ context.Context, key string, rdr io.Reader, noOverwrite, wi
 	vd, err := v.pre(op, key, true)
 	if err != nil {
 		return err
+	}
+	if vd == dieAfter && v.a != nil {
+		v.a.mu.Lock()
+		if v.a.crashTorn {
+			data, withCRC = []byte{}, false
+		}
+		v.a.mu.Unlock()
 	}
 	w := v.s.w
 	w.mu.Lock()
